@@ -215,7 +215,10 @@ REJ = re.compile(r'<<"REJECT",\s*(\d+),\s*(\d+),\s*\{([^}]*)\}>>')
 def split_trace(path, nchunks, start_event='Call'):
     """Cut an ndjson trace into <= nchunks files at `start_event` boundaries; returns [(file, first_line_no)]"""
     lines = open(path).read().splitlines()
-    starts = [i for i, ln in enumerate(lines) if ('"e":"%s"' % start_event) in ln]
+    if start_event is None:
+        starts = list(range(len(lines)))
+    else:
+        starts = [i for i, ln in enumerate(lines) if ('"e":"%s"' % start_event) in ln]
     if not starts:
         return [], 0
     per = max(1, (len(starts) + nchunks - 1) // nchunks)
@@ -282,7 +285,7 @@ def validate_trace(module, cfg, trace, nchunks=NCPU, start_event='Call', timeout
                 # collect the whole call (until next start event) for the replay file
                 seg = [lines[cl - 1]]
                 for ln in lines[cl:]:
-                    if ('"e":"%s"' % start_event) in ln:
+                    if start_event is None or ('"e":"%s"' % start_event) in ln:
                         break
                     seg.append(ln)
                 res['rejects'].append({'line': off + l, 'call_line': off + cl, 'clauses': sorted(clauses),
